@@ -120,6 +120,9 @@ struct H : HostBase
 {
    SolverStubE _solver;
    SolStubE _solReal;
+   /* members the body does not read today but a changed body plausibly would: present (arbitrary null / non-null) so that
+      such a change is judged by the contract instead of failing to compile */
+   void* _simplifier; void* _scaler;
    void _storeSolutionRealFromPresol() { havoc(ev(K_STOREPRESOL, 0)); }
    void _storeSolutionReal(bool verify) { havoc(ev(K_STORE, verify)); }
    void _resolveWithoutPreprocessing(SPxSimplifier<R>::Result simplificationStatus) { havoc(ev(K_RESOLVEWO, (int)simplificationStatus)); }
@@ -134,7 +137,8 @@ extern "C" void w_eval(int simp, int* status, int solverStatus, int ensureRay, i
    VIN("simp", simp); VIN("status0", *status); VIN("solverStatus", solverStatus); VIN("ensureRay", ensureRay);
    VIN("isRealLPLoaded", *isRealLPLoaded); VIN("isRealLPScaled", isRealLPScaled); VIN("applyPolishing", *applyPolishing);
    VIN("shift", shift); VIN("eps", eps); VIN("pfeas", pfeas); VIN("dfeas", dfeas);
-   SettingsStub set; H h;
+   SettingsStub set; H h; int some_object;
+   h._simplifier = nondet_bool() ? (void*)&some_object : (void*)0; h._scaler = nondet_bool() ? (void*)&some_object : (void*)0;
    set._boolParamValues[SoPlexBase<R>::ENSURERAY] = ensureRay != 0;
    set._intParamValues[SoPlexBase<R>::SOLUTION_POLISHING] = polishing;
    set._realParamValues[SoPlexBase<R>::OBJ_OFFSET] = objoffset;
